@@ -133,6 +133,168 @@ let err_s = function
   | EDiv0 -> "div0" | ERange -> "range" | EBounds -> "bounds" | EConst -> "const" | EArity -> "arity"
   | EUnbound -> "unbound" | EUndef -> "undef" | ENoFuel -> "nofuel"
 
+
+(* ------------------------------------------------------------------------------------------------
+   CbCall (coq/C08/Kinds.v): programs whose results / parameters / locals are of every kind.
+     prog  := (K (glob ..) (func ..) (stmt ..))            glob := (g NAME INT)
+     func  := (F NAME kind meth (param ..) (stmt ..))      meth := 0|1 (method of S0: param 0 is the receiver `self`)
+     kind  := long|int|bool|str|dbl|flt|quad|struct|arr|ref|void
+     param := (NAME kind) | (NAME kind INT)                (default: payload of a literal)
+     expr  := INT | (lit kind INT) | (v N) | (get N) | (bin OP a b) | (call F e ..)
+     stmt  := (decl STA kind x e) | (asg x e) | (expr e) | (try x e) | (if c (s ..) (s ..)) | (for i n (s ..))
+            | (ret) | (ret e) | (print (kind e) ..)
+   Surface forms: string "s<z>", double <z>.5, float <z>.5f, quad <z>.5q, struct S0 { long a; long b; } with a = payload,
+   array long[2] with [0] = payload, reference `long&` (bound to a global), method call v<r>.f<n>(..), `try (e)` + match. *)
+let kind_of_s = function
+  | "long" -> KLong | "int" -> KInt | "bool" -> KBool | "str" -> KStr | "dbl" -> KDbl | "flt" -> KFlt | "quad" -> KQuad
+  | "struct" -> KStruct | "arr" -> KArr | "ref" -> KRef | "void" -> KVoid | s -> failwith ("kind " ^ s)
+let rec kexpr_of = function
+  | A s -> KNum (z_of_string s)
+  | L [A "lit"; k; z] -> KLit (kind_of_s (atom k), z_of_string (atom z))
+  | L [A "v"; n] -> KVar (nat_a n)
+  | L [A "get"; n] -> KGet (nat_a n)
+  | L [A "bin"; o; a; b] -> KBin (binop_of (atom o), kexpr_of a, kexpr_of b)
+  | L (A "call" :: f :: args) -> KCall (nat_a f, List.map kexpr_of args)
+  | _ -> failwith "kexpr"
+let rec kstmt_of = function
+  | L [A "decl"; s; k; x; e] -> KDecl (bool_a s, kind_of_s (atom k), nat_a x, kexpr_of e)
+  | L [A "asg"; x; e] -> KAsg (nat_a x, kexpr_of e)
+  | L [A "expr"; e] -> KExpr (kexpr_of e)
+  | L [A "try"; x; e] -> KTry (nat_a x, kexpr_of e)
+  | L [A "if"; c; s1; s2] -> KIf (kexpr_of c, kstmts_of s1, kstmts_of s2)
+  | L [A "for"; i; n; b] -> KFor (nat_a i, kexpr_of n, kstmts_of b)
+  | L [A "ret"] -> KRet None
+  | L [A "ret"; e] -> KRet (Some (kexpr_of e))
+  | L (A "print" :: args) -> KPrint (List.map (function L [k; e] -> (kind_of_s (atom k), kexpr_of e) | _ -> failwith "print arg") args)
+  | _ -> failwith "kstmt"
+and kstmts_of x = List.map kstmt_of (list_of x)
+let kparam_of = function
+  | L [n; k] -> { kpk = kind_of_s (atom k); kpn = nat_a n; kpd = None }
+  | L [n; k; d] -> { kpk = kind_of_s (atom k); kpn = nat_a n; kpd = Some (z_of_string (atom d)) }
+  | _ -> failwith "kparam"
+let kfunc_of = function
+  | L [A "F"; n; r; m; ps; body] ->
+      { kfname = nat_a n; kfret = kind_of_s (atom r); kfmeth = bool_a m; kfparams = List.map kparam_of (list_of ps); kfbody = kstmts_of body }
+  | _ -> failwith "kfunc"
+let kprog_of gs fs m =
+  { kpglob = List.map (function L [A "g"; n; z] -> (nat_a n, z_of_string (atom z)) | _ -> failwith "kglob") (list_of gs);
+    kpfuncs = List.map kfunc_of (list_of fs); kpmain = kstmts_of m }
+
+(* --- integers out of the extracted Z (payloads are small) --- *)
+let rec int_of_pos = function XH -> 1 | XO p -> 2 * int_of_pos p | XI p -> 2 * int_of_pos p + 1
+let int_of_z = function Z0 -> 0 | Zpos p -> int_of_pos p | Zneg p -> - (int_of_pos p)
+let zs z = string_of_int (int_of_z z)
+
+let ktype = function
+  | KLong -> "long" | KInt -> "int" | KBool -> "bool" | KStr -> "string" | KDbl -> "double" | KFlt -> "float" | KQuad -> "quad"
+  | KStruct -> "S0" | KArr -> "long[2]" | KRef -> "long&" | KVoid -> "void"
+let kvar n = let i = int_of_nat n in if i = 0 then "self" else "v" ^ string_of_int i
+let kfn n = "f" ^ string_of_int (int_of_nat n)
+let binop_s = function
+  | Add -> "+" | Sub -> "-" | Mul -> "*" | Div -> "/" | Mod -> "%" | BAnd -> "&" | BOr -> "|" | BXor -> "^"
+  | Shl -> "<<" | Shr -> ">>" | Lt0 -> "<" | Le -> "<=" | Gt0 -> ">" | Ge -> ">=" | Eq0 -> "==" | Ne -> "!="
+
+let print_kprog (p : kprog) : string =
+  let b = Buffer.create 1024 in
+  let add = Buffer.add_string b in
+  let tryn = ref 0 in
+  let fd_of f = List.find_opt (fun fd -> int_of_nat fd.kfname = int_of_nat f) p.kpfuncs in
+  (* kinds of the names visible in a body: globals (long), parameters, every declaration / loop counter *)
+  let env_of (params : kparam list) (body : kstmt list) =
+    let h = Hashtbl.create 16 in
+    List.iter (fun (g, _) -> Hashtbl.replace h (int_of_nat g) KLong) p.kpglob;
+    List.iter (fun pa -> Hashtbl.replace h (int_of_nat pa.kpn) pa.kpk) params;
+    let rec scan = function
+      | KDecl (_, k, x, _) -> Hashtbl.replace h (int_of_nat x) k
+      | KIf (_, a, c) -> List.iter scan a; List.iter scan c
+      | KFor (i, _, body) | KLoop (i, _, body) -> Hashtbl.replace h (int_of_nat i) KLong; List.iter scan body
+      | _ -> () in
+    List.iter scan body; h in
+  let kind_of_var env x = match Hashtbl.find_opt env (int_of_nat x) with Some k -> k | None -> KLong in
+  let kind_of env = function
+    | KNum _ | KGet _ | KBin _ -> KLong
+    | KLit (k, _) -> k
+    | KVar x -> kind_of_var env x
+    | KCall (f, _) -> (match fd_of f with Some fd -> fd.kfret | None -> KLong) in
+  let rec pe env = function
+    | KNum z -> let i = int_of_z z in if i < 0 then "( 0 - " ^ string_of_int (- i) ^ " )" else string_of_int i
+    | KLit (k, z) ->
+        (match k with
+         | KStr -> "\"s" ^ zs z ^ "\"" | KDbl -> zs z ^ ".5" | KFlt -> zs z ^ ".5f" | KQuad -> zs z ^ ".5q"
+         | KBool -> if int_of_z z <> 0 then "true" else "false"
+         | _ -> zs z)
+    | KVar x -> kvar x
+    | KGet x -> (match kind_of_var env x with KArr -> kvar x ^ "[0]" | _ -> kvar x ^ ".a")
+    | KBin (o, a, c) -> "( " ^ pe env a ^ " " ^ binop_s o ^ " " ^ pe env c ^ " )"
+    | KCall (f, args) ->
+        let meth = (match fd_of f with Some fd -> fd.kfmeth | None -> false) in
+        (match meth, args with
+         | true, r :: rest -> pe env r ^ "." ^ kfn f ^ "( " ^ String.concat " , " (List.map (pe env) rest) ^ " )"
+         | _ -> kfn f ^ "( " ^ String.concat " , " (List.map (pe env) args) ^ " )") in
+  let rec ps env ind st =
+    let line s = add ind; add s; add "\n" in
+    let block ss = List.iter (ps env (ind ^ "  ")) ss in
+    match st with
+    | KDecl (sta, k, x, e) ->
+        let pre = (if sta then "static " else "") ^ ktype k ^ " " ^ kvar x in
+        (match k, kind_of env e with
+         | KStruct, KStruct | KArr, KArr -> line (pre ^ " = " ^ pe env e ^ " ;")
+         | KStruct, _ -> line (pre ^ " ;"); line (kvar x ^ ".a = " ^ pe env e ^ " ;"); line (kvar x ^ ".b = 7 ;")
+         | KArr, _ -> line (pre ^ " = [ " ^ pe env e ^ " , 7 ] ;")
+         | _ -> line (pre ^ " = " ^ pe env e ^ " ;"))
+    | KAsg (x, e) ->
+        (match kind_of_var env x, kind_of env e with
+         | KStruct, KStruct | KArr, KArr -> line (kvar x ^ " = " ^ pe env e ^ " ;")
+         | KStruct, _ -> line (kvar x ^ ".a = " ^ pe env e ^ " ;")
+         | KArr, _ -> line (kvar x ^ "[0] = " ^ pe env e ^ " ;")
+         | _ -> line (kvar x ^ " = " ^ pe env e ^ " ;"))
+    | KExpr e -> line (pe env e ^ " ;")
+    | KTry (x, e) ->
+        incr tryn; let n = string_of_int !tryn in
+        line ("Result<long, RuntimeError> t" ^ n ^ " = try ( " ^ pe env e ^ " ) ;");
+        line ("match ( t" ^ n ^ " ) { Ok(tv" ^ n ^ ") => { " ^ kvar x ^ " = tv" ^ n ^ " ; } Err(te" ^ n ^ ") => { " ^ kvar x ^ " = 0 - 1 ; } }")
+    | KIf (c, s1, s2) ->
+        line ("if ( " ^ pe env c ^ " ) {"); block s1;
+        (match s2 with [] -> line "}" | _ -> line "} else {"; block s2; line "}")
+    | KFor (i, n, body) ->
+        line ("for ( long " ^ kvar i ^ " = 0 ; " ^ kvar i ^ " < " ^ pe env n ^ " ; " ^ kvar i ^ " = " ^ kvar i ^ " + 1 ) {"); block body; line "}"
+    | KLoop (i, n, body) ->
+        line ("for ( ; " ^ kvar i ^ " < " ^ pe env n ^ " ; " ^ kvar i ^ " = " ^ kvar i ^ " + 1 ) {"); block body; line "}"
+    | KRet None -> line "return ;"
+    | KRet (Some e) -> line ("return " ^ pe env e ^ " ;")
+    | KPrint args ->
+        let one (k, e) = match k, e with
+          | KStruct, _ -> pe env e ^ ".a"
+          | KArr, _ -> pe env e ^ "[0]"
+          | _ -> pe env e in
+        line ("println( " ^ String.concat " , " (List.map one args) ^ " ) ;") in
+  let pparam pa =
+    ktype pa.kpk ^ " " ^ kvar pa.kpn ^
+    (match pa.kpd with Some z -> " = " ^ pe (Hashtbl.create 1) (match pa.kpk with KLong | KInt -> KNum z | k -> KLit (k, z)) | None -> "") in
+  let sig_of fd = let ps_ = if fd.kfmeth then List.tl fd.kfparams else fd.kfparams in
+    ktype fd.kfret ^ " " ^ kfn fd.kfname ^ "( " ^ String.concat " , " (List.map pparam ps_) ^ " )" in
+  let pfunc ind fd =
+    add ind; add (sig_of fd); add " {\n";
+    let env = env_of fd.kfparams fd.kfbody in
+    List.iter (ps env (ind ^ "  ")) fd.kfbody; add ind; add "}\n" in
+  add "struct S0 { long a ; long b ; } ;\n";
+  List.iter (fun (g, z) -> add ("long " ^ kvar g ^ " = " ^ zs z ^ " ;\n")) p.kpglob;
+  let meths = List.filter (fun fd -> fd.kfmeth) p.kpfuncs in
+  if meths <> [] then begin
+    add "interface I0 {\n"; List.iter (fun fd -> add ("  " ^ sig_of fd ^ " ;\n")) meths; add "} ;\n";
+    add "impl I0 for S0 {\n"; List.iter (pfunc "  ") meths; add "} ;\n"
+  end;
+  List.iter (fun fd -> if not fd.kfmeth then pfunc "" fd) p.kpfuncs;
+  add "void main() {\n";
+  let env = env_of [] p.kpmain in
+  List.iter (ps env "  ") p.kpmain; add "}\n";
+  Buffer.contents b
+
+let render_k (o : kitem list) : string =
+  String.concat "" (List.map (function
+    | KOSp -> " " | KONl -> "\n"
+    | KOVal (k, z) -> (match k with KStr -> "s" ^ zs z | KDbl | KFlt | KQuad -> zs z ^ ".5" | _ -> zs z)) o)
+
 let () =
   let fuel = nat_of_int (if Array.length Sys.argv > 1 then int_of_string Sys.argv.(1) else 4000) in
   let show tag (out, oc) =
@@ -143,13 +305,26 @@ let () =
     while true do
       let line = input_line stdin in
       if String.length line > 0 then begin
-        let p = prog_of (parse_sx line) in
+        (match parse_sx line with
+         | L [A "K"; gs; fs; m] ->
+             let p = kprog_of gs fs m in
+             let showk tag (out, oc) =
+               print_endline ("===" ^ tag ^ " " ^ (match oc with Finished -> "finished" | Failed e -> err_s e));
+               print_string (render_k out); print_endline "" in
+             print_endline "===BEGIN";
+             print_string (print_kprog p);
+             showk "REF" (kref_run fuel p);
+             showk "MECH" (kmech_run fuel p);
+             showk "MECHB" (kmech_run fuel p);
+             print_endline "===END"
+         | sx ->
+        let p = prog_of sx in
         print_endline "===BEGIN";
         print_string (implode (print_program p));
         show "REF" (run fuel p);
         show "MECH" (mech_run false fuel p);
         show "MECHB" (mech_run true fuel p);
-        print_endline "===END"
+        print_endline "===END")
       end
     done
   with End_of_file -> ()
